@@ -614,7 +614,7 @@ func evaluateUnary(operator token.Token, right interface{}) interface{} {
 			utils.RuntimeError(operator, err.Error())
 			return nil
 		}
-		return ^value
+		return float64(^value)
 
 	default:
 		utils.RuntimeError(operator, "Unknown unary operator: "+operator.Lexeme)
@@ -767,15 +767,15 @@ func handleBitwise(left, right interface{}, operator token.Token) interface{} {
 
 	switch operator.Type {
 	case token.AND:
-		return leftInt & rightInt
+		return float64(leftInt & rightInt)
 	case token.OR:
-		return leftInt | rightInt
+		return float64(leftInt | rightInt)
 	case token.XOR:
-		return leftInt ^ rightInt
+		return float64(leftInt ^ rightInt)
 	case token.LEFT_SHIFT:
-		return leftInt << rightInt
+		return float64(leftInt << rightInt)
 	case token.RIGHT_SHIFT:
-		return leftInt >> rightInt
+		return float64(leftInt >> rightInt)
 	case token.POWER:
 		return int64(math.Pow(float64(leftInt), float64(rightInt)))
 	}
